@@ -32,6 +32,8 @@ def partition(rng, data, mode):
 class Rda(Engine):
     name = 'rda'
     keep_prefix = 1
+    parallel = 8
+    timeout = 3000
 
     def __init__(self, faults=True, nbase=600):
         self.faults = faults
